@@ -8,6 +8,9 @@ pub mod evo_case;
 pub mod hostile_case;
 pub mod stream_case;
 pub mod graph;
+pub mod varint;
+pub mod cont_case;
+pub mod prim_case;
 pub mod alloc;
 
 pub use model::{mv, ModelType, Opt};
